@@ -23,6 +23,9 @@ ASSUMPTIONS = [
     'oracle is exact: byte identity (shape, dtype, tobytes) of every caller-owned argument after each of the 3 calls, bit identity of the 3 frozen '
     'results (arrays by bytes, floats by repr, objects by their attribute dict); no tolerance is involved, so no tolerance derivation is needed; '
     'worst observed deviation on a conforming callable is 0 by construction',
+    'after every call of a history the process-wide settings that decide what later calls return or raise (warnings.filters, numpy.geterr(), numpy print options, recursion limit, '
+    'working directory) are compared with their values before the history: a callable that returns leaving them changed has changed the result of later identical calls of other callables '
+    '(no callable of the unchanged tree touches any of them)',
     'explicitly requested in-place operations are exempt for the object they are requested on (self of Quaternion.normalize(), QuaternionArray.remove_jumps(), '
     'slerp_nan() / slerp_nan(inplace=True), rotate_by(inplace=True), from_DCM(inplace=True, the default), Sensors.generate()); their other arguments are still judged; '
     'slerp_nan(inplace=False), rotate_by(inplace=False), from_DCM(inplace=False) are NOT exempt',
@@ -1391,6 +1394,16 @@ def _invoke(call, Aobj):
         return ('exc', type(ex).__name__, str(ex)[:160])
 
 
+def _gstate():
+    """Process-wide settings that decide what LATER calls (of anything) return or raise: the warning filters, NumPy's floating-point error
+    handling and print options, the recursion limit, the working directory.  A call that returns leaving one of them changed has changed
+    the result of the next identical call of some other function (0/0 -> NaN + warning becomes an exception, ...)."""
+    import warnings as _w, sys as _s, os as _o
+    po = np.get_printoptions()
+    return (tuple((f[0], getattr(f[1], 'pattern', f[1]), getattr(f[2], '__name__', f[2]), getattr(f[3], 'pattern', f[3]), f[4]) for f in _w.filters),
+            tuple(sorted(np.geterr().items())), tuple(sorted((k_, repr(v_)) for k_, v_ in po.items())), _s.getrecursionlimit(), _o.getcwd())
+
+
 def history(ctx, L, cid, entry, case, cont, k, scale=1.0):
     """call, call, call on the same argument objects; returns True when the first call completed."""
     Aobj = case['make']()                                    # a builder that cannot build is a harness error (job crash), never a verdict
@@ -1411,10 +1424,22 @@ def history(ctx, L, cid, entry, case, cont, k, scale=1.0):
     repeat_flagged = False
     result_flagged = False
     live1 = None
+    g0 = _gstate()
     for n_call in (1, 2, 3):
         _seed_call(L, rng, k)
         out = _invoke(case['call'], Aobj)
         ctx.transitions += 1
+        g1 = _gstate()
+        ctx.evals += 1
+        if g1 != g0:
+            changed = [nm_ for nm_, a_, b_ in zip(('warning filters', 'numpy.seterr', 'numpy print options', 'recursion limit', 'working directory'), g0, g1) if a_ != b_]
+            ctx.fail(f'{cid} leaves the process-wide settings that later calls depend on (warning filters, floating-point error handling, print options) as it found them',
+                     f'{key0} call={n_call}', changed, 'unchanged', 0)
+            import warnings as _w
+            _w.resetwarnings()
+            _w.simplefilter('ignore')
+            np.seterr(**dict(g0[1]))
+            g0 = _gstate()
         fr = (out[0], freeze(out[1])) if out[0] == 'ok' else out
         for n in judged:
             same = freeze(Aobj[n]) == before[n]
